@@ -25,6 +25,7 @@ enum L {
     RecH,
 }
 const LABELS: &[L] = &[L::Dx, L::Dy, L::Wx, L::B, L::F, L::Fp, L::Cl, L::Ret, L::Rec, L::RecH];
+const DEEP_LABELS: &[L] = &[L::Dx, L::Wx, L::B, L::Cl];
 fn is_container(l: L) -> bool {
     !matches!(l, L::Dx | L::Dy | L::Wx)
 }
@@ -36,7 +37,7 @@ struct Node {
 }
 
 /// all forests with exactly `n` nodes and nesting depth <= `d`
-fn forests(n: usize, d: usize, memo: &mut std::collections::HashMap<(usize, usize), Rc<Vec<Vec<Node>>>>) -> Rc<Vec<Vec<Node>>> {
+fn forests(labels: &[L], n: usize, d: usize, memo: &mut std::collections::HashMap<(usize, usize), Rc<Vec<Vec<Node>>>>) -> Rc<Vec<Vec<Node>>> {
     if let Some(v) = memo.get(&(n, d)) {
         return v.clone();
     }
@@ -46,8 +47,8 @@ fn forests(n: usize, d: usize, memo: &mut std::collections::HashMap<(usize, usiz
     } else {
         // first tree has k nodes (1..=n), the rest is a forest with n-k nodes
         for k in 1..=n {
-            let firsts = trees(k, d, memo);
-            let rests = forests(n - k, d, memo);
+            let firsts = trees(labels, k, d, memo);
+            let rests = forests(labels, n - k, d, memo);
             for f in firsts.iter() {
                 for r in rests.iter() {
                     let mut v = vec![f.clone()];
@@ -61,15 +62,15 @@ fn forests(n: usize, d: usize, memo: &mut std::collections::HashMap<(usize, usiz
     memo.insert((n, d), rc.clone());
     rc
 }
-fn trees(n: usize, d: usize, memo: &mut std::collections::HashMap<(usize, usize), Rc<Vec<Vec<Node>>>>) -> Vec<Node> {
+fn trees(labels: &[L], n: usize, d: usize, memo: &mut std::collections::HashMap<(usize, usize), Rc<Vec<Vec<Node>>>>) -> Vec<Node> {
     let mut out = vec![];
-    for &l in LABELS {
+    for &l in labels {
         if !is_container(l) {
             if n == 1 {
                 out.push(Node { l, kids: vec![] });
             }
         } else if d >= 1 {
-            let kids = forests(n - 1, d - 1, memo);
+            let kids = forests(labels, n - 1, d - 1, memo);
             for k in kids.iter() {
                 out.push(Node { l, kids: k.clone() });
             }
@@ -231,13 +232,23 @@ impl P04 {
         let mut memo = std::collections::HashMap::new();
         let mut skeletons = vec![];
         for n in 1..=nmax {
-            skeletons.extend(forests(n, dmax, &mut memo).iter().cloned());
+            skeletons.extend(forests(LABELS, n, dmax, &mut memo).iter().cloned());
+        }
+        let n_wide = skeletons.len();
+        // deep family: inside one function, forests over {let x, x = x + 10, block, closure} with more nodes
+        // and deeper nesting (captured variables bound, written and read across block boundaries)
+        let (n2, d2) = tier.pick((5, 4), (6, 5));
+        let mut memo2 = std::collections::HashMap::new();
+        for n in 2..=n2 {
+            for f in forests(DEEP_LABELS, n, d2, &mut memo2).iter() {
+                skeletons.push(vec![Node { l: L::F, kids: f.clone() }]);
+            }
         }
         // ill-formed family: skeletons of up to nmax-1 nodes x every invisible-use position
         let mut bad = vec![];
         for (i, sk) in skeletons.iter().enumerate() {
             let nodes: usize = count(sk);
-            if nodes > nmax - 1 {
+            if nodes > nmax - 1 || i >= n_wide {
                 continue;
             }
             let (_, npos) = build(sk, None);
@@ -277,7 +288,7 @@ impl Property for P04 {
         compare_program(fam, &p)
     }
     fn rule(&self) -> String {
-        format!("every scope skeleton (ordered forest) with <= {} nodes and nesting depth <= {} over the node kinds {:?} (let x / let y with a unique constant each, x = x + 10, block, function statement, function with parameter x, closure bound by let, closure returned from a function and called later, recursive function, recursive function recursing through a nested helper closure); family V observes every visible name after every statement, at the start and end of every container, inside every function body, and calls every function right after its definition and again at the end of the enclosing container; family I adds exactly one use of a name at one position where it is not visible (all positions, skeletons of <= {} nodes) and expects a compile error; oracle: RefEval's lexical resolver and capture-by-value-at-creation semantics", self.nmax, self.dmax, LABELS, self.nmax - 1)
+        format!("every scope skeleton (ordered forest) with <= {} nodes and nesting depth <= {} over the node kinds {:?} (let x / let y with a unique constant each, x = x + 10, block, function statement, function with parameter x, closure bound by let, closure returned from a function and called later, recursive function, recursive function recursing through a nested helper closure); family V observes every visible name after every statement, at the start and end of every container, inside every function body, and calls every function right after its definition and again at the end of the enclosing container; family I adds exactly one use of a name at one position where it is not visible (all positions, skeletons of <= {} nodes) and expects a compile error; a second, deeper family wraps every forest of 2..=5 (thorough 6) nodes and depth <= 4 (thorough 5) over {{let x, x = x + 10, block, closure}} in one function, so that captured variables are bound, written and read across block boundaries inside closures; oracle: RefEval's lexical resolver and capture-by-value-at-creation semantics", self.nmax, self.dmax, LABELS, self.nmax - 1)
     }
     fn bounds(&self) -> Value {
         json!({"max_nodes": self.nmax, "max_depth": self.dmax, "skeletons": self.skeletons.len(), "ill_formed_variants": self.bad.len()})
